@@ -16,6 +16,19 @@ def dvar(name):
     return z3.Int(name)
 
 
+def decision_constraints(st):
+    """the decisions of a state as z3 constraints over integer variables named like the decision keys"""
+    out = []
+    for k, v in st.decisions.items():
+        if k.endswith("#not"):
+            base = k[:-4] + "#d"
+            for x in v:
+                out.append(dvar(base) != x)
+        elif isinstance(v, int):
+            out.append(dvar(k) == v)
+    return out
+
+
 def is_eager(I, t):
     """types whose Lazy is expanded as soon as it is read as a whole (cheap, non-forking)"""
     if t.kind == "adt":
@@ -52,9 +65,8 @@ def decide_variant(I, st, lz, here):
         raise Unsupported("no variant allowed for %r" % (lz,))
     if len(allowed) == 1:
         st.decisions[key] = allowed[0]
-        st.pc.append(dvar(key) == allowed[0])
         return allowed[0]
-    raise NeedFork(key, allowed, lambda ch: dvar(key) == ch)
+    raise NeedFork(key, allowed, None)
 
 
 def variant_value(I, st, lz, vi):
@@ -67,7 +79,6 @@ def concretise_variant(I, st, lz, ptr, vi):
     key = lz.name + "#d"
     if st.decisions.get(key) != vi:
         st.decisions[key] = vi
-        st.pc.append(dvar(key) == vi)
     v = variant_value(I, st, lz, vi)
     if ptr is not None:
         I.write(st, ptr, v)
@@ -77,9 +88,7 @@ def concretise_variant(I, st, lz, ptr, vi):
 def exclude_variants(I, st, lz, ptr, named):
     key = lz.name + "#d"
     new = Lazy(lz.name, lz.ty, frozenset(lz.excl) | frozenset(named))
-    for k in named:
-        if k not in lz.excl:
-            st.pc.append(dvar(key) != k)
+    st.decisions[lz.name + "#not"] = new.excl
     if ptr is not None:
         I.write(st, ptr, new)
     return new
@@ -92,7 +101,7 @@ def decide_len(I, st, name, lo, hi):
     if lo == hi:
         st.decisions[key] = lo
         return lo
-    raise NeedFork(key, list(range(lo, hi + 1)), lambda ch: dvar(key) == ch)
+    raise NeedFork(key, list(range(lo, hi + 1)), None)
 
 
 def lazy_cell(I, st, name, ty):
@@ -211,6 +220,12 @@ class Policy:
         return None
 
     def str_content(self, I, st, name):
+        return None
+
+    def digits_content(self, I, st, name, kind):
+        return None
+
+    def display(self, I, st, ptr, t, kind):
         return None
 
     def has_drop_impl(self, adt_name):
